@@ -454,7 +454,7 @@ func checkC09(c *Ctx) {
 					}
 				}
 			}
-			c.Check(okT, "R4", "timeout-wiring:"+f.Name(), p.InstrPos(ci), "WithTimeout(options.Timeout, ready every not-ready participant)", d)
+			c.Check(okT, "R4", "timeout-wiring:"+fnName(f), p.InstrPos(ci), "WithTimeout(options.Timeout, ready every not-ready participant)", d)
 			// the user callback is stored
 			okCb := false
 			for _, ss := range p.Stores([]*ssa.Function{f}) {
@@ -462,7 +462,7 @@ func checkC09(c *Ctx) {
 					okCb = true
 				}
 			}
-			c.Check(okCb, "R4", "callback-stored:"+f.Name(), p.Pos(f.Pos()), "user callback stored", "the constructor does not keep the user's ready callback")
+			c.Check(okCb, "R4", "callback-stored:"+fnName(f), p.Pos(f.Pos()), "user callback stored", "the constructor does not keep the user's ready callback")
 		}
 	}
 	c.Min("R4", "constructors", nCtor, 2)
